@@ -102,6 +102,9 @@ impl Assets {
         node.locks(&mut af, &mut ol);
         for n in af { a.after.insert(n); }
         for n in ol { a.older.insert(rel_canon(n)); }
+        let mut rp = vec![];
+        node.rawpkhs(&mut rp);
+        for h in rp { a.rawpk.insert(h); a.rawsig.insert(h); if h >= 200 { a.schnorr.entry(h).or_insert(64); } }
         a
     }
 }
@@ -334,13 +337,15 @@ pub fn asset_subsets(node: &Node, cap: usize) -> Vec<Assets> {
     let full = Assets::full(node);
     // atoms as a flat list of "switches"
     #[derive(Clone)]
-    enum Sw { E(u32), S(u32), P(HK, u32), O(u32), A(u32) }
+    enum Sw { E(u32), S(u32), P(HK, u32), O(u32), A(u32), RP(u32), RS(u32) }
     let mut sw: Vec<Sw> = vec![];
     for k in &full.ecdsa { sw.push(Sw::E(*k)); }
     for (k, _) in &full.schnorr { sw.push(Sw::S(*k)); }
     for (k, h) in &full.pre { sw.push(Sw::P(*k, *h)); }
     for n in &full.older { sw.push(Sw::O(*n)); }
     for n in &full.after { sw.push(Sw::A(*n)); }
+    for h in &full.rawpk { sw.push(Sw::RP(*h)); }
+    for h in &full.rawsig { sw.push(Sw::RS(*h)); }
     let n = sw.len().min(10);
     let total = 1usize << n;
     let mut res = Vec::new();
@@ -357,6 +362,8 @@ pub fn asset_subsets(node: &Node, cap: usize) -> Vec<Assets> {
                     Sw::P(k, h) => { a.pre.insert((*k, *h)); }
                     Sw::O(x) => { a.older.insert(*x); }
                     Sw::A(x) => { a.after.insert(*x); }
+                    Sw::RP(h) => { a.rawpk.insert(*h); }
+                    Sw::RS(h) => { a.rawsig.insert(*h); if *h >= 200 { a.schnorr.entry(*h).or_insert(64); } }
                 }
             }
         }
